@@ -180,10 +180,14 @@ def run_cli(argv, capture_stdout=True, stale=True):
         # temporary files on another file system than the inputs and outputs (TMPDIR on tmpfs)
         global _SHM_TMP
         if _SHM_TMP is None:
-            _SHM_TMP = tempfile.mkdtemp(prefix="vf-tmp-", dir="/dev/shm")
-            atexit.register(shutil.rmtree, _SHM_TMP, True)
-        tempfile.tempdir = _SHM_TMP
-        STALE["tmpdir_on_other_filesystem_runs"] += 1
+            try:
+                _SHM_TMP = tempfile.mkdtemp(prefix=f"vf-tmp-{os.getpid()}-", dir="/dev/shm")
+                atexit.register(shutil.rmtree, _SHM_TMP, True)
+            except OSError:
+                _SHM_TMP = False  # not available here: this dimension is simply not varied
+        if _SHM_TMP:
+            tempfile.tempdir = _SHM_TMP
+            STALE["tmpdir_on_other_filesystem_runs"] += 1
 
     root = logging.getLogger()
     old_handlers = list(root.handlers)
